@@ -429,9 +429,10 @@ def ini_raw(text):
     p = config._ConfigParser()
     try:
         p.read_file(io.StringIO(text))
+        # reading the values is part of what the parser does (a parser with interpolation fails HERE, not in read_file)
+        return {"sections": [[s, [[k, v] for k, v in p.items(s)]] for s in p.sections()]}
     except configparser.Error as ex:
         return {"err": "configparser." + type(ex).__name__}
-    return {"sections": [[s, [[k, v] for k, v in p.items(s)]] for s in p.sections()]}
 
 
 def _toml_section(tbl):
@@ -560,7 +561,7 @@ def cfg_post(fmt, text, cwd, self_rel_path=None):
                 ctx = config.ProjectContext(pl.Path("."), pl.Path.cwd() / self_rel_path, self_rel_path, fmt, None)
                 raw = config._parse_raw_config(ctx)
             cfg = config._parse_config(raw)
-        except (TypeError, ValueError, AttributeError, KeyError, re.error) as ex:
+        except Exception as ex:  # whatever the real reader raises is its observable outcome, never a crash of the check
             return _cfg_err(ex)
     return {"ok": _effective_json(cfg, True)}
 
@@ -611,7 +612,7 @@ def cfg_init_in(cwd):
     with _Cwd(cwd):
         try:
             ctx, cfg = config.init(project_path=".")
-        except (AttributeError, KeyError, re.error) as ex:
+        except Exception as ex:  # observable outcome of the real code, never a crash of the check
             return {"crash": exc_name(ex)}
     if cfg is None:
         return {"file": ctx.config_rel_path, "cfg": None}
